@@ -792,11 +792,25 @@ func (e *env) debCompareOps(n int) {
 type debElem struct {
 	rank  int
 	spell string
+	zero  bool // the version 0 (no epoch, no revision): prints as "0"
 }
 
-func (e *env) debChain(n int) []debElem {
+func debIsZero(v debVer) bool {
+	return v.epoch == 0 && !v.hasRev && len(v.upstream) == 1 && v.upstream[0].pre == "" && v.upstream[0].num == "0"
+}
+
+func (e *env) debChain(n int) []debElem { return e.debChainFrom(n, false) }
+
+// debChainFrom: with zeroBase the chain grows around the version 0 (what the
+// trackers write for "not affected" is the string "0"; other spellings of
+// zero, and versions below it such as 0~rc1, are ordinary versions).
+func (e *env) debChainFrom(n int, zeroBase bool) []debElem {
 	rnd := e.rnd
 	vs := []debVer{genDeb(rnd)}
+	if zeroBase {
+		z := debVer{upstream: []debPart{{pre: "", num: "0"}}}
+		vs = []debVer{z, mutateDeb(rnd, z), {upstream: []debPart{{pre: "", num: "0"}, {pre: "~", num: genDebDigits(rnd)}}}}
+	}
 	for len(vs) < n {
 		vs = append(vs, mutateDeb(rnd, vs[rnd.Intn(len(vs))]))
 	}
@@ -807,9 +821,9 @@ func (e *env) debChain(n int) []debElem {
 		if i > 0 && cmpDeb(vs[i-1], v) != 0 {
 			rank++
 		}
-		out = append(out, debElem{rank, renderDeb(rnd, v, false)})
+		out = append(out, debElem{rank, renderDeb(rnd, v, false), debIsZero(v)})
 		if rnd.Chance(1, 5) {
-			out = append(out, debElem{rank, renderDeb(rnd, v, true)}) // an equal version, possibly spelled differently
+			out = append(out, debElem{rank, renderDeb(rnd, v, true), false}) // an equal version, possibly spelled differently
 		}
 	}
 	return out
@@ -824,7 +838,7 @@ func debPrintsZero(s string) bool {
 func (e *env) debMatcherOps(chains int) {
 	r, rnd := e.r, e.rnd
 	for c := 0; c < chains && !r.Stop(); c++ {
-		chain := e.debChain(5 + rnd.Intn(4))
+		chain := e.debChainFrom(5+rnd.Intn(4), rnd.Chance(1, 4))
 		for _, m := range debMatchers() {
 			one := func(pe debElem, fixed string, frank int) {
 				p := pkg{version: pe.spell}
@@ -861,6 +875,14 @@ func (e *env) debMatcherOps(chains int) {
 				}
 				// the sentinels
 				one(pe, rnd.Pick("", "0", "0:0", " 0", "0-0", "00"), -1)
+				// other spellings of the version 0, with its place in the chain known
+				for _, z := range chain {
+					if z.zero {
+						one(pe, rnd.Pick("0:0", " 0", "0 ", " 0:0"), z.rank)
+						r.Count("vuln:" + m.name + ":zero-spelled-otherwise")
+						break
+					}
+				}
 			}
 		}
 	}
@@ -998,7 +1020,11 @@ func (e *env) apkMatcherOps(chains int) {
 			case fixed == "0":
 				want = false
 			case prank < 0 || frank < 0:
-				return // unparsable version: never reported (checked on the model side)
+				if apkver.Valid(pv) && apkver.Valid(fixed) {
+					return // the edit left a well-formed version of unknown rank: compared with the model only
+				}
+				want = false // a version apk does not accept is never reported
+				r.Count("vuln:alpine:invalid-version")
 			default:
 				want = prank < frank
 			}
@@ -1184,15 +1210,40 @@ func (e *env) osvMatcherOps(chains int) {
 						}
 					}
 					v := url.Values{}
+					pspell, ispell, uspell := pe.spell, "", ""
 					if ie != nil {
-						v.Add("introduced", ie.spell)
+						ispell = ie.spell
+					}
+					if ue != nil {
+						uspell = ue.spell
+					}
+					if sc.name == "python" {
+						// PEP 440 local version labels ("+cu118"): pkg/pep440 discards them, PEP 440 sorts them
+						// just above the public version; used only where both readings give the same verdict
+						// (the bound's public version differs from the package's)
+						loc := func(s string) string { return s + "+" + rnd.Pick("local", "cu118", "ubuntu.1", "1", "abc.5") }
+						if ie != nil && ie.rank != pe.rank && rnd.Chance(1, 5) {
+							ispell = loc(ispell)
+							r.Count("osv:python:local-label:introduced")
+						}
+						if ue != nil && ue.rank != pe.rank && rnd.Chance(1, 5) {
+							uspell = loc(uspell)
+							r.Count("osv:python:local-label:bound")
+						}
+						if rnd.Chance(1, 8) && !(shape == "lastAffected" && ue != nil && ue.rank == pe.rank) {
+							pspell = loc(pspell)
+							r.Count("osv:python:local-label:package")
+						}
+					}
+					if ie != nil {
+						v.Add("introduced", ispell)
 					}
 					if ue != nil && shape != "both" {
-						v.Add(shape, ue.spell)
+						v.Add(shape, uspell)
 					}
 					if shape == "both" {
 						// a fix and a last affected version: the fix decides (the matchers look at `fixed` first)
-						v.Add("fixed", ue.spell)
+						v.Add("fixed", uspell)
 						v.Add("lastAffected", chain[rnd.Intn(len(chain))].spell)
 					}
 					fixedIn := v.Encode()
@@ -1209,7 +1260,7 @@ func (e *env) osvMatcherOps(chains int) {
 						}
 						fixedIn = strings.Join(append(parts, "limit=9"), "&")
 					}
-					got := e.osvCall(sc, pe.spell, fixedIn)
+					got := e.osvCall(sc, pspell, fixedIn)
 					r.Count("osv:" + sc.name + ":" + shape + ":" + got)
 					want := true
 					if fixedIn != "" {
@@ -1224,7 +1275,7 @@ func (e *env) osvMatcherOps(chains int) {
 						}
 					}
 					if got != fmt.Sprint(want) {
-						r.Fail("", fmt.Sprintf("%s: Vulnerable(package %q, FixedInVersion %q)=%s, by construction expected %v", sc.name, pe.spell, fixedIn, got, want))
+						r.Fail("", fmt.Sprintf("%s: Vulnerable(package %q, FixedInVersion %q)=%s, by construction expected %v", sc.name, pspell, fixedIn, got, want))
 					}
 				}
 			}
